@@ -3,7 +3,8 @@
 // extracted Coq model, and evaluates the property's own predicates (exact big-integer /
 // big-rational arithmetic, independent of the model) on the implementation's results.
 //
-//	D k s n scaleBits offsetBits raw start ; T:gotype v   decode of a standard signal (k: c,f,i,d)
+//	D k s n scaleBits offsetBits raw start variant ; T:gotype v   decode of a standard signal (k: c,f,i,d;
+//	                                          variant = how the type was obtained: constructor, Clone, UpdateSigned, setters)
 //	N n cnt (name idx)* raw ; name|-1                 decode of an enum signal
 //	R k s n ; minBits maxBits                         type range (k: i,d)
 //	S v ; r        V n ; r                            calcSizeFromValue / calcValueFromSize
@@ -86,39 +87,104 @@ type typSpec struct {
 	offset float64
 }
 
-func mkType(ts typSpec) (*acmelib.SignalType, error) {
+// baseType builds the type through its constructor
+func baseType(ts typSpec, signed bool, scale, offset float64) (*acmelib.SignalType, error) {
 	switch ts.kind {
 	case 'f':
 		return acmelib.NewFlagSignalType("t"), nil
 	case 'i':
-		t, err := acmelib.NewIntegerSignalType("t", ts.size, ts.signed)
+		t, err := acmelib.NewIntegerSignalType("t", ts.size, signed)
 		if err != nil {
 			return nil, err
 		}
-		t.SetScale(ts.scale)
-		t.SetOffset(ts.offset)
+		t.SetScale(scale)
+		t.SetOffset(offset)
 		return t, nil
 	case 'd':
-		t, err := acmelib.NewDecimalSignalType("t", ts.size, ts.signed)
+		t, err := acmelib.NewDecimalSignalType("t", ts.size, signed)
 		if err != nil {
 			return nil, err
 		}
+		t.SetScale(scale)
+		t.SetOffset(offset)
+		return t, nil
+	default:
+		return acmelib.NewCustomSignalType("t", ts.size, signed, 0, 0, scale, offset)
+	}
+}
+
+// nVariants: the ways a type with the same kind / size / signedness / scale / offset is obtained.
+// Every one of them must decode identically:
+//
+//	0 constructor                         1 Clone()                 2 Clone() of a Clone()
+//	3 built with the opposite signedness, then UpdateSigned        4 UpdateSigned flipped and flipped
+//	back around a first use               5 built with other scale / offset / min / max, then
+//	SetScale / SetOffset / SetMin / SetMax  6 variant 3 then Clone()  7 clone, then setters on the clone
+const nVariants = 8
+
+var variantCounter int
+
+var variantName = [nVariants]string{"constructor", "clone", "clone-of-clone", "update-signed", "update-signed-twice", "setters", "update-signed-clone", "clone-setters"}
+
+func mkType(ts typSpec, variant int) (*acmelib.SignalType, error) {
+	if ts.kind == 'f' && (variant == 3 || variant == 4 || variant == 6) {
+		variant = 1 // a flag type has no signedness to flip
+	}
+	switch variant {
+	case 1:
+		t, err := baseType(ts, ts.signed, ts.scale, ts.offset)
+		if err != nil {
+			return nil, err
+		}
+		return t.Clone(), nil
+	case 2:
+		t, err := baseType(ts, ts.signed, ts.scale, ts.offset)
+		if err != nil {
+			return nil, err
+		}
+		return t.Clone().Clone(), nil
+	case 3, 6:
+		t, err := baseType(ts, !ts.signed, ts.scale, ts.offset)
+		if err != nil {
+			return nil, err
+		}
+		t.UpdateSigned(ts.signed)
+		if variant == 6 {
+			return t.Clone(), nil
+		}
+		return t, nil
+	case 5, 7:
+		t, err := baseType(ts, ts.signed, ts.scale*3+1, ts.offset-17.5)
+		if err != nil {
+			return nil, err
+		}
+		if variant == 7 {
+			t = t.Clone()
+		}
+		t.SetMin(-12345)
+		t.SetMax(54321)
 		t.SetScale(ts.scale)
 		t.SetOffset(ts.offset)
 		return t, nil
-	default:
-		return acmelib.NewCustomSignalType("t", ts.size, ts.signed, 0, 0, ts.scale, ts.offset)
+	default: // 0 and 4
+		return baseType(ts, ts.signed, ts.scale, ts.offset)
 	}
 }
 
 type decoder struct {
-	ts    typSpec
-	start int
-	msg   *acmelib.Message
+	ts      typSpec
+	start   int
+	msg     *acmelib.Message
+	variant int
 }
 
 func newDecoder(ts typSpec, start int) *decoder {
-	typ, err := mkType(ts)
+	variantCounter++
+	return newDecoderV(ts, start, variantCounter%nVariants)
+}
+
+func newDecoderV(ts typSpec, start, variant int) *decoder {
+	typ, err := mkType(ts, variant)
 	if err != nil {
 		panic(err)
 	}
@@ -130,7 +196,16 @@ func newDecoder(ts typSpec, start int) *decoder {
 	if err := msg.InsertSignal(sig, start); err != nil {
 		panic(err)
 	}
-	return &decoder{ts, start, msg}
+	if variant == 4 && ts.kind != 'f' {
+		// use the type once with the other signedness, then restore it
+		typ.UpdateSigned(!ts.signed)
+		func() {
+			defer func() { _ = recover() }()
+			msg.SignalLayout().Decode(make([]byte, 8))
+		}()
+		typ.UpdateSigned(ts.signed)
+	}
+	return &decoder{ts, start, msg, variant}
 }
 
 func payload(raw uint64, size, start int, noise uint64) []byte {
@@ -300,8 +375,8 @@ func b2i(b bool) int {
 
 func decodeCase(rc *recorder, d *decoder, raw, noise uint64, cat string) {
 	ts := d.ts
-	in := fmt.Sprintf("D %c %d %d %d %d %d %d", ts.kind, b2i(ts.signed), ts.size,
-		math.Float64bits(ts.scale), math.Float64bits(ts.offset), raw, d.start)
+	in := fmt.Sprintf("D %c %d %d %d %d %d %d %d", ts.kind, b2i(ts.signed), ts.size,
+		math.Float64bits(ts.scale), math.Float64bits(ts.offset), raw, d.start, d.variant)
 	top := ts.signed && (raw>>(ts.size-1))&1 == 1
 	nontriv := top || ts.offset != 0 || ts.scale != 1
 	dec, pan := d.run(raw, noise)
@@ -347,8 +422,12 @@ func decodeCase(rc *recorder, d *decoder, raw, noise uint64, cat string) {
 		if shape == "" {
 			shape = "-plain"
 		}
-		rc.fail("c03-decode-"+kindName(ts.kind)+"-"+sg+shape, key, line,
-			fmt.Sprintf("size %d raw %d scale %g offset %g: decoded %s, raw*scale+offset rule gives %s", ts.size, raw, ts.scale, ts.offset, obs, exp))
+		via := ""
+		if d.variant != 0 {
+			via = "-via-" + variantName[d.variant]
+		}
+		rc.fail("c03-decode-"+kindName(ts.kind)+"-"+sg+shape+via, key, line,
+			fmt.Sprintf("size %d raw %d scale %g offset %g (type obtained by %s): decoded %s, raw*scale+offset rule gives %s", ts.size, raw, ts.scale, ts.offset, variantName[d.variant], obs, exp))
 	}
 }
 
@@ -585,6 +664,19 @@ func genEnumHistories(rc *recorder, r *rng, n int) {
 				ops = append(ops, fmt.Sprintf("M:%d", m))
 				e.SetMinSize(m)
 			}
+			if r.below(12) == 0 {
+				// continue the history on a clone: it must be indistinguishable
+				if ce, err := e.Clone(); err == nil {
+					ce.SetMinSize(e.MinSize())
+					e = ce
+					ids = map[int]acmelib.EntityID{}
+					for _, v := range e.Values() {
+						if n, err := strconv.Atoi(strings.TrimPrefix(v.Name(), "Val_")); err == nil {
+							ids[n] = v.EntityID()
+						}
+					}
+				}
+			}
 			obs = append(obs, fmt.Sprintf("%d:%d:%d", b2i(ok), e.GetSize(), e.MaxIndex()))
 			realMax := 0
 			for _, v := range e.Values() {
@@ -621,7 +713,11 @@ func genEnumDecode(rc *recorder, r *rng, n int) {
 			}
 			used[idx] = true
 			nm := len(vals)
-			if err := e.AddValue(acmelib.NewSignalEnumValue(fmt.Sprintf("Val_%d", nm), idx)); err != nil {
+			val := acmelib.NewSignalEnumValue(fmt.Sprintf("Val_%d", nm), idx)
+			if r.below(3) == 0 {
+				val = val.Clone() // a clone must behave as the original
+			}
+			if err := e.AddValue(val); err != nil {
 				panic(err)
 			}
 			vals = append(vals, ev{nm, idx})
@@ -631,6 +727,25 @@ func genEnumDecode(rc *recorder, r *rng, n int) {
 		}
 		if negs {
 			e.SetMinSize(64)
+		}
+		if c%3 == 1 {
+			// decode through a clone (and a clone of the clone) of the enum
+			ce, err := e.Clone()
+			if err != nil {
+				panic(err)
+			}
+			ce.SetMinSize(e.MinSize()) // Clone copies the values; the minimum size is configuration
+			if c%2 == 0 {
+				if ce2, err := ce.Clone(); err == nil {
+					ce2.SetMinSize(e.MinSize())
+					ce = ce2
+				}
+			}
+			if ce.GetSize() != e.GetSize() || ce.MaxIndex() != e.MaxIndex() || len(ce.Values()) != len(e.Values()) {
+				rc.fail("c03-enum-clone", uint64(len(vals)), fmt.Sprintf("N clone of enum with %d values", len(vals)),
+					fmt.Sprintf("clone has size %d max index %d, %d values; original %d, %d, %d", ce.GetSize(), ce.MaxIndex(), len(ce.Values()), e.GetSize(), e.MaxIndex(), len(e.Values())))
+			}
+			e = ce
 		}
 		size := e.GetSize()
 		if size < 1 || size > 64 {
@@ -784,6 +899,34 @@ func genSizes(rc *recorder, r *rng, nrand int) {
 	}
 }
 
+// isDecimal (helpers.go) decides in the DBC importer whether a signal gets an integer kind (then
+// scale / offset are truncated by decoding) or a decimal kind: "has a fractional part".
+func genIsDecimal(rc *recorder, r *rng) {
+	vals := []float64{0, math.Copysign(0, -1), 0.5, -0.5, 1e-9, -1e-9, 1, -1, 1.5, -1.5, 0.1, -0.1, 2.000000000000001, -2.000000000000001,
+		4503599627370495.5, -4503599627370495.5, 4503599627370496, 9007199254740992, -9007199254740992, 9007199254740994, 1e300, -1e300,
+		5e-324, -5e-324, 255, -255, 0.25, -0.25, 1e15 + 0.5, -(1e15 + 0.5)}
+	for i := 0; i < 200; i++ {
+		f := math.Float64frombits(r.next())
+		if math.IsNaN(f) || math.IsInf(f, 0) {
+			continue
+		}
+		vals = append(vals, f, math.Trunc(f), float64(int64(r.next()>>uint(r.below(60))))/float64(int64(1)<<uint(r.below(8))))
+	}
+	for _, v := range vals {
+		got := acmelib.VerifIsDecimal(v)
+		want := v != math.Trunc(v)
+		rc.hist["is-decimal(go-predicate-only)"]++
+		if got != want {
+			neg := "positive"
+			if v < 0 {
+				neg = "negative"
+			}
+			rc.fail("c03-is-decimal-"+neg, math.Float64bits(math.Abs(v))>>12, fmt.Sprintf("I %d", math.Float64bits(v)),
+				fmt.Sprintf("isDecimal(%g) = %v, the value %s a fractional part", v, got, map[bool]string{true: "has", false: "has no"}[want]))
+		}
+	}
+}
+
 func genMux(rc *recorder, r *rng, thorough bool) {
 	counts := []int{}
 	for c := 1; c <= 4097; c++ {
@@ -820,7 +963,11 @@ func replay(rc *recorder, line string) {
 	switch f[0] {
 	case "D":
 		ts := typSpec{f[1][0], f[2] == "1", atoi(f[3]), math.Float64frombits(atou(f[4])), math.Float64frombits(atou(f[5]))}
-		d := newDecoder(ts, atoi(f[7]))
+		variant := 0
+		if len(f) > 8 {
+			variant = atoi(f[8])
+		}
+		d := newDecoderV(ts, atoi(f[7]), variant)
 		decodeCase(rc, d, atou(f[6]), 0, "replay")
 	default:
 		fmt.Println("replay supports D lines; other kinds are regenerated by the seeded run")
@@ -842,6 +989,7 @@ func main() {
 	} else {
 		genRanges(rc)
 		genSizes(rc, r, map[bool]int{false: 300, true: 20000}[thorough])
+		genIsDecimal(rc, r)
 		genMux(rc, r, thorough)
 		genEnumHistories(rc, r, map[bool]int{false: 3000, true: 100000}[thorough])
 		genEnumDecode(rc, r, map[bool]int{false: 1500, true: 40000}[thorough])
